@@ -42,6 +42,7 @@ func (m *consumptions) Add(c *consumption) {
 func (m *consumptions) Remove(cid CID) *consumption {
 	ci, ok := m.Load(cid)
 	if ok {
+		verifPoint("remove.loaded", ci)
 		m.Delete(cid)
 		atomic.AddInt32(&m.count, -1)
 		return ci.(*consumption)
